@@ -1007,7 +1007,21 @@ def records(ctx):
                    and isinstance(x.value, ast.Name) and x.value.id == 'rays']
             if attr in RECORD_MAP and len(src) == 1:
                 n += 1
-                if src[0].attr == RECORD_MAP[attr]:
+                v = s_.value
+                fresh = isinstance(v, ast.Call) and (
+                    unparse(v.func) in ('np.copy', 'np.array', 'copy.copy',
+                                        'copy.deepcopy') or
+                    (isinstance(v.func, ast.Attribute) and
+                     v.func.attr == 'copy'))
+                if src[0].attr == RECORD_MAP[attr] and not fresh:
+                    res.fail(ctx.finding(
+                        'RECORDS', f, s_,
+                        f'the {attr} record aliases the live ray array '
+                        f'({unparse(v)}): operations that update the rays in '
+                        f'place (reflect, rotate, propagate, clip) rewrite '
+                        f'what was recorded at earlier surfaces',
+                        construct=f'record {attr} not a copy'))
+                elif src[0].attr == RECORD_MAP[attr]:
                     res.ok(f'_record: self.{attr} <- rays.{src[0].attr}')
                 else:
                     res.fail(ctx.finding(
@@ -1146,5 +1160,13 @@ def scatter_unit(ctx):
     return res
 
 
-RULES = [no_stale, records, scatter_unit, snell_law, reflect_law, align_normal, on_surface, normal_gradient,
+def c01_media_chain(ctx):
+    """shared with C01: the prescription this property reads (media on both
+    sides of each surface, placement and tilt of the surface frames) is the
+    one the editing API was given."""
+    from .C01 import media_chain as _r
+    return _r(ctx)
+
+
+RULES = [c01_media_chain, no_stale, records, scatter_unit, snell_law, reflect_law, align_normal, on_surface, normal_gradient,
          frames, trace_order, same_medium, nonfinite]
